@@ -6,7 +6,7 @@
    least one sink still held.  `active_here s c t`: t names an accepted, not unsubscribed subscription of connection c
    whose handler still holds a sink. *)
 From Coq Require Import List NArith ZArith Bool.
-From JV Require Import Model.SubBook Proofs.SubBookFacts.
+From JV Require Import Model.AcceptSteps Gen.AcceptOrderGen Model.SubBook Proofs.SubBookFacts.
 Import ListNotations.
 
 Theorem C06_unsubscribe_truth_table : forall caps base meth tr c cn req t, let s := fst (reach caps base meth tr) in nth_error (conns s) c = Some cn -> c_open cn = true -> stopped s = false -> exists r, snd (step s (UnsubscribeCall c req t)) = [OUnsubAnswer c req t r] /\ (r = true <-> active_here s c t) /\ (exists cn', nth_error (conns (fst (step s (UnsubscribeCall c req t)))) c = Some cn' /\ sent cn' = sent cn ++ [FUnsub req r]).
@@ -42,4 +42,29 @@ Example C06_repaired_witness : let s := fst (reach [1; 1] 1000 0 ex_book) in snd
 Proof. vm_compute. repeat split. Qed.
 
 Example C06_slot_reuse_nonvacuous : let s := fst (reach [1] 1000 0 (ex_book ++ [DropSink 0 0])) in count_live s 0 = 0 /\ table s = [] /\ snd (step s (SubscribeCall 0 4)) = [OHandler 1 0 4].
+Proof. vm_compute. repeat split. Qed.
+
+(* ---- accept() that FAILS: abandoned subscribe call (AbandonCall: the call future was dropped, e.g. by an rpc middleware,
+   while the connection stays open; SAbandoned = the pending sink lives on in a task of its own) or closed connection.
+   `step` interprets accept() over Gen/AcceptOrderGen.accept_steps, the order of its effectful steps read from
+   core/src/server/subscription.rs on every check (tools/translators/accept_order.py); the theorems are about that
+   constant -- with the table insert in front of a fallible send they are false and their proofs do not build. ---- *)
+Theorem C06_failed_accept_leaves_no_entry : forall caps base meth tr h b, let s := fst (reach caps base meth tr) in nth_error (subs s) h = Some b -> (s_state b = SPending \/ s_state b = SAbandoned) -> (forall op call fs fc t, ar_ok (accept_run op call b AcceptOrderGen.accept_steps fs fc t) = false -> ar_table (accept_run op call b AcceptOrderGen.accept_steps fs fc t) = t) /\ (In (OAccept h false) (snd (step s (Accept1 h))) <-> (s_state b = SAbandoned \/ conn_open s (s_conn b) = false)) /\ (In (OAccept h false) (snd (step s (Accept1 h))) -> table (fst (step s (Accept1 h))) = table s /\ forall tr2 cn req, let s2 := fst (reach caps base meth (tr ++ Accept1 h :: tr2)) in ~ In (s_conn b, s_id b) (table s2) /\ (nth_error (conns s2) (s_conn b) = Some cn -> c_open cn = true -> stopped s2 = false -> snd (step s2 (UnsubscribeCall (s_conn b) req (s_id b))) = [OUnsubAnswer (s_conn b) req (s_id b) false])).
+Proof. exact failed_accept_leaves_no_entry. Qed.
+Print Assumptions C06_failed_accept_leaves_no_entry.
+
+Theorem C06_failed_accept_returns_slot : forall caps base meth tr c cn req mid, let s0 := fst (reach caps base meth tr) in let h := length (subs s0) in nth_error (conns s0) c = Some cn -> c_open cn = true -> stopped s0 = false -> count_live s0 c < c_cap cn -> (mid = [AbandonCall h true] \/ mid = [ConnDrop c]) -> let s2 := fst (reach caps base meth (tr ++ SubscribeCall c req :: mid)) in count_live s2 c = count_live s0 c + 1 /\ In (OAccept h false) (snd (step s2 (Accept1 h))) /\ count_live (fst (step s2 (Accept1 h))) c = count_live s0 c.
+Proof. exact failed_accept_returns_slot. Qed.
+Print Assumptions C06_failed_accept_returns_slot.
+
+Theorem C06_failed_accept_frees_one_slot : forall caps base meth tr h b cn, let s := fst (reach caps base meth tr) in nth_error (subs s) h = Some b -> (s_state b = SPending \/ s_state b = SAbandoned) -> nth_error (conns s) (s_conn b) = Some cn -> In (OAccept h false) (snd (step s (Accept1 h))) -> let s1 := fst (step s (Accept1 h)) in count_live s1 (s_conn b) + 1 = count_live s (s_conn b) /\ exists cn1, nth_error (conns s1) (s_conn b) = Some cn1 /\ c_permits cn1 = c_permits cn + 1 /\ c_cap cn1 = c_cap cn.
+Proof. exact failed_accept_frees_slot. Qed.
+Print Assumptions C06_failed_accept_frees_one_slot.
+
+(* subscribe; the call is abandoned; accept fails (the response was already enqueued: error 44, then the success response
+   of the same call); unsubscribe of that id -> false; with cap 1 the next subscribe is admitted and accepted *)
+Definition ex_abandon : list act :=
+  [SubscribeCall 0 1; AbandonCall 0 true; Accept1 0; UnsubscribeCall 0 2 1000; SubscribeCall 0 3; Accept1 1; Accept2 1].
+
+Example C06_failed_accept_witness : let r := reach [1] 1000 0 ex_abandon in snd r = [OHandler 0 0 1; OAck; OAccept 0 false; OUnsubAnswer 0 2 1000 false; OHandler 1 0 3; OAck; OAccept 1 true] /\ table (fst r) = [(0, 1001%N)] /\ map sent (conns (fst r)) = [[FErr 1 EAbandoned; FSubOk 1 1000; FUnsub 2 false; FSubOk 3 1001]] /\ count_live (fst r) 0 = 1 /\ snd (step (fst (reach [1] 1000 0 [SubscribeCall 0 1; AbandonCall 0 true])) (SubscribeCall 0 9)) = [ORefused 0 9] /\ AcceptOrderGen.accept_steps = [AcceptSteps.ASendToSink; AcceptSteps.ANotifyCall; AcceptSteps.ATableInsert; AcceptSteps.ABuildSink].
 Proof. vm_compute. repeat split. Qed.
